@@ -1284,15 +1284,19 @@ def gt_select(ctx: Ctx) -> RuleResult:
     ss = g.methods.get("single_node_successors")
     ms = g.methods.get("multiple_nodes_successors")
     r.require(ai and ss and ms, "closure primitives not found")
-    oka = any(isinstance(n, ast.Call) and (dotted(n.func) or "").endswith("ancestors") and not (dotted(n.func) or "").endswith("descendants")
-              for n in iter_own_nodes(ai.node))
+    def _refs(fn_, names) -> bool:
+        """The function mentions one of the primitives - called, or handed to map / partial as a value."""
+        return any((isinstance(n, ast.Attribute) and n.attr in names) or (isinstance(n, ast.Name) and n.id in names) for n in iter_own_nodes(fn_.node))
+    oka = _refs(ai, ("ancestors",)) and not _refs(ai, ("descendants", "successors", "dfs_tree", "bfs_tree"))
     okd = any(isinstance(n, ast.Call) and (dotted(n.func) or "").split(".")[-1] in ("dfs_tree", "descendants", "bfs_tree")
               for n in iter_own_nodes(ss.node)) and not any(
         isinstance(n, ast.Call) and (dotted(n.func) or "").split(".")[-1] in ("ancestors", "reverse", "predecessors") for n in iter_own_nodes(ss.node))
-    okm = any(isinstance(n, ast.Call) and isinstance(n.func, ast.Attribute) and n.func.attr == "single_node_successors" for n in iter_own_nodes(ms.node))
+    okm = _refs(ms, ("single_node_successors",))
     r.ob(oka, {"ancestors_of_iter uses nx.ancestors": oka})
     r.ob(okd, {"single_node_successors is a forward closure including the node": okd})
     r.ob(okm, {"multiple_nodes_successors unions single_node_successors": okm})
+    if not oka and not _refs(ai, ("descendants", "successors", "dfs_tree", "bfs_tree", "predecessors")):
+        raise Undecided("DiGraphEx.ancestors_of_iter: closure primitive not recognised")
     if not oka:
         r.violate("DiGraphEx.ancestors_of_iter: not the ancestor closure", ai.loc(), "", None)
     if not okd:
